@@ -57,6 +57,7 @@ func Preset(prop string, adversarial bool, r *scen.Rand) *Params {
 		p.TasksP = 0.15 // a mismatch must not pass silently under concurrency either
 		p.ReplayP = 0.3
 	case "C03":
+		p.NonTestNames = true
 		p.Alpha = Alpha{Plain: 8, Framing: 1, Structured: 2}
 		p.Envs = []map[string]string{envOff, envCI, envUpd}
 		p.EditKinds = []string{"value", "shuffle", "addcall", "addtest"}
@@ -111,6 +112,7 @@ func Preset(prop string, adversarial bool, r *scen.Rand) *Params {
 		p.ReplayP = 0.9
 		p.APIw = allAPIs(4, 1)
 	case "C07":
+		p.NonTestNames = true
 		p.Alpha = Alpha{Plain: 9, Framing: 1, Structured: 1}
 		p.Envs = allEnvs
 		p.EditKinds = []string{"value", "removecall", "removetest", "addcall"}
@@ -136,6 +138,7 @@ func Preset(prop string, adversarial bool, r *scen.Rand) *Params {
 		p.ReplayP = 0.8
 		p.APIw = allAPIs(3, 2)
 	case "C09":
+		p.NonTestNames = true
 		p.Alpha = Alpha{Plain: 10, Framing: 0, Structured: 1}
 		p.Envs = allEnvs
 		p.EditKinds = []string{"removecall", "removetest", "removesub", "skip", "addcall", "addtest"}
@@ -163,7 +166,7 @@ func Preset(prop string, adversarial bool, r *scen.Rand) *Params {
 		p.ReplayP = 1
 		p.CleanAgainP = 0.6
 		p.APIw = allAPIs(4, 1)
-		p.NonTestNames = adversarial
+		p.NonTestNames = true
 	case "C12":
 		p.Alpha = Alpha{Plain: 9, Framing: 1, Structured: 1}
 		p.CfgP = 0.9
